@@ -94,6 +94,8 @@ pub struct Counters {
     pub panics_while_other_in_flight: u64,
     pub calls_overlapped: u64,
     pub session_records: u64,
+    #[serde(default)]
+    pub alloc_yields: u64,
 }
 
 pub struct SimState {
@@ -140,6 +142,7 @@ impl SimState {
                 panics_while_other_in_flight: 0,
                 calls_overlapped: 0,
                 session_records: 0,
+                alloc_yields: 0,
             },
             session_open: false,
             session_transition: Vec::new(),
@@ -339,6 +342,7 @@ pub fn reset_shadow() {
 
 pub fn hook_callback(e: prqlc::verif_hooks::Event) {
     use prqlc::verif_hooks::Event::*;
+    let _gate = crate::threads::gate_close();
     let shuttle_on = in_shuttle();
     let task = cur_task();
     {
@@ -505,10 +509,12 @@ impl log::Log for SimLogger {
     /// Exactly what the CLI wires (`MessageLogger`): enabled while a debug session is open
     /// and not suppressed. `log::log_enabled!` guards in the library see the real answer.
     fn enabled(&self, m: &log::Metadata) -> bool {
+        let _gate = crate::threads::gate_close();
         log::Log::enabled(&REAL_LOGGER, m)
     }
 
     fn log(&self, record: &log::Record) {
+        let _gate = crate::threads::gate_close();
         let task = cur_task();
         let (do_panic, do_yield, session, others_in_flight);
         let mut heap_seed = None;
@@ -617,6 +623,7 @@ pub fn install() {
     log::set_max_level(log::LevelFilter::Trace);
     prqlc::verif_hooks::set_callback(hook_callback);
     std::panic::set_hook(Box::new(|info| {
+        let _gate = crate::threads::gate_close();
         let msg = if let Some(s) = info.payload().downcast_ref::<&str>() {
             s.to_string()
         } else if let Some(s) = info.payload().downcast_ref::<String>() {
